@@ -32,6 +32,8 @@
 #include "HuTucker/HuTucker.h"
 #include "Huffman/Huffman.h"
 #include "RePair/RePair.h"
+#include "RePair/Coder/hash.h"
+#include "RePair/Coder/records.h"
 #include "utils/Coder/StatCoder.h"
 #include "utils/DAC_VLS.h"
 #include "utils/LogSequence.h"
@@ -584,7 +586,71 @@ static void case_wt(Src &s) {
 }
 
 // ------------------------------------------------------------------ C20: Re-Pair
+// C20, the compressor's pair table as a state machine: generated insert / delete / lookup histories on
+// HashRP (open addressing with deletion marks, as IRePair drives it: a small live set, a long stream of
+// brand-new pairs that are inserted and purged again) against a std::map model.  Invariant after every
+// step: a lookup must be able to end, i.e. the table keeps at least one empty (-1) cell - checked on the
+// table itself, never by waiting - and every stored pair is found at its record, every purged pair is not.
+static void case_pairhash(Src &s) {
+  cur->set_op("pairhash");
+  int bits0 = 3 + s.below(6);                 // initial table of 8..256 cells (IRePair starts with 2^17)
+  size_t maxlive = 1 + s.below(24);
+  size_t steps = 200 + s.below(60) * 200;     // up to 12 000 operations
+  XorShift x(s.u32() + 11);
+  Trarray Rec;
+  bool ok0 = lib("C20", [&] { Rec = Records::createRecords(factor, 64); });
+  if (!ok0) return;
+  // own record storage: ids 0..maxlive-1
+  Rec.records = (Trecord *)realloc(Rec.records, sizeof(Trecord) * (maxlive + 1));
+  Rec.maxsize = (int)maxlive + 1;
+  Rec.size = (int)maxlive;
+  Thash H;
+  if (!lib("C20", [&] { H = HashRP::createHash((1 << bits0) - 1, &Rec); })) return;
+  std::map<std::pair<int, int>, int> model;   // pair -> record id
+  std::vector<int> free_ids;
+  for (size_t i = 0; i < maxlive; i++) free_ids.push_back((int)i);
+  long fresh = 300;
+  bool bad = false;
+  auto virgin = [&]() { for (int k = 0; k <= H.maxpos; k++) if (H.table[k] == -1) return true; return false; };
+  for (size_t t = 0; t < steps && !bad; t++) {
+    uint32_t r = s.exhausted() ? x.below(100) : s.byte() % 100;
+    if ((r < 55 && !free_ids.empty()) || model.empty()) {
+      if (free_ids.empty()) continue;
+      int id = free_ids.back(); free_ids.pop_back();
+      std::pair<int, int> p{(int)(fresh++), 97 + (int)x.below(150)};
+      Rec.records[id].pair.left = p.first; Rec.records[id].pair.right = p.second;
+      if (!lib("C20", [&] { HashRP::insertHash(&H, id); })) return;
+      model[p] = id;
+    } else if (r < 95) {
+      auto it = model.begin(); std::advance(it, x.below((uint32_t)model.size()));
+      int id = it->second;
+      if (!lib("C20", [&] { HashRP::deleteHash(&H, id); })) return;
+      free_ids.push_back(id);
+      model.erase(it);
+    }
+    if (!virgin()) { cur->event("C20", "pair-table-no-empty-cell", "after " + std::to_string(t + 1) + " operations the pair table (" + std::to_string(H.maxpos + 1) + " cells, " + std::to_string(model.size()) + " live pairs) has no empty cell left: the lookup of a pair that is not stored never ends"); bad = true; break; }
+    if (t % 16 == 0 || t + 1 == steps) {
+      for (auto &kv : model) {
+        Tpair q; q.left = kv.first.first; q.right = kv.first.second;
+        int got = -9;
+        if (!lib("C20", [&] { got = HashRP::searchHash(H, q); })) return;
+        if (got != kv.second) { cur->event("C20", "pair-table-lookup", "stored pair (" + std::to_string(q.left) + "," + std::to_string(q.right) + ") is found at record " + std::to_string(got) + " expected " + std::to_string(kv.second)); bad = true; break; }
+      }
+      Tpair q; q.left = 1; q.right = 2;
+      int got = -9;
+      if (!bad && !lib("C20", [&] { got = HashRP::searchHash(H, q); })) return;
+      if (!bad && got != -1) { cur->event("C20", "pair-table-lookup", "a pair that was never stored is found at record " + std::to_string(got)); bad = true; }
+    }
+  }
+  lib("C20", [&] { HashRP::destroyHash(&H); });
+  free(Rec.records);
+  cur->nontrivial = steps >= 400;
+  cur->labels.insert("pairhash_history");
+  cur->sample = "{\"component\":\"RePair pair table\",\"cells0\":" + std::to_string(1 << bits0) + ",\"max_live\":" + std::to_string(maxlive) + ",\"operations\":" + std::to_string(steps) + "}";
+}
+
 static void case_repair(Src &s) {
+  if (cfg.stratum >= 0 && cfg.stratum % 16 == 6) { case_pairhash(s); return; }
   cur->set_op("repair");
   int fam = s.pick({90, 26, 30, 30, 30, 30, 20});
   size_t nstr = fam == 1 ? 1 : 1 + s.below(400);
